@@ -393,37 +393,64 @@ func fieldRace(seed uint64, index string, rounds int) string {
 
 // hhStress: concurrent appenders and one drainer on a hinted-handoff queue; every appended
 // block is drained exactly once, in per-appender order.
-// hhCatchup: the reader has caught up with the appenders (the head segment is also the tail);
-// one block is appended, and at the moment the reader has read it and is about to advance
-// past it — and to decide that the head segment is exhausted — eight appenders append one
-// block each. Segments hold three blocks. Every accepted block must come out once.
+// hhCatchup: the sender (NodeProcessor.SendWrite in a loop, as its background loop does) has
+// caught up with the appenders (the head segment is also the tail); one block is appended, and
+// at the moment the sender has handed it to the shard writer and is about to advance past it —
+// and to decide that the head segment is exhausted — eight appenders append one block each.
+// Segments hold three blocks. Every accepted block must be delivered.
+type catchRec struct {
+	mu        sync.Mutex
+	delivered map[uint64]int
+	armed     *int32
+	burst     *atomic.Value
+}
+
+func (w *catchRec) WriteShardBinary(shardID, ownerID uint64, points [][]byte) error {
+	w.mu.Lock()
+	for _, pt := range points {
+		var id uint64
+		fmt.Sscanf(string(pt), "%d", &id)
+		w.delivered[id]++
+	}
+	w.mu.Unlock()
+	if atomic.CompareAndSwapInt32(w.armed, 1, 0) {
+		close(w.burst.Load().(chan struct{}))
+	}
+	return nil
+}
+
 func hhCatchup(seed uint64, ms int) string {
-	dir, _ := os.MkdirTemp(shardh.WorkDir("stress"), "h-")
+	dir, _ := os.MkdirTemp(shardh.WorkDir("stress"), "hc-")
 	defer os.RemoveAll(dir)
-	q, err := hh.VerifNewQueue(dir, 1<<30, 100)
-	if err != nil {
+	cfg := hh.NewConfig()
+	cfg.MaxSize = 1 << 30
+	cfg.MaxWritesPending = 100
+	var armed int32
+	var burst atomic.Value
+	rec := &catchRec{delivered: map[uint64]int{}, armed: &armed, burst: &burst}
+	proc := hh.NewNodeProcessor(cfg, 2, 1, dir, rec, hhNode{})
+	if err := hh.VerifOpenProcessor(proc); err != nil {
 		return "err:" + strings.ReplaceAll(err.Error(), " ", "_")
 	}
-	if err := q.Open(); err != nil {
-		return "err:" + err.Error()
-	}
+	q := hh.VerifProcessorQueue(proc)
 	defer q.Close()
-	const blockSize = 64
+	const ptLen = 52
+	const blockSize = 12 + ptLen
 	q.SetMaxSegmentSize(3*(blockSize+8) + 8)
 	const appenders = 8
 	var (
-		nextID        uint64
-		accepted      sync.Map
-		nAcc, nDeliv  int64
-		appendersDone int32
-		armed         int32
-		burst         atomic.Value
-		appendErr     atomic.Value
+		nextID    uint64
+		accepted  sync.Map
+		nAcc      int64
+		appendErr atomic.Value
 	)
 	appendOne := func() {
 		id := atomic.AddUint64(&nextID, 1)
-		b := make([]byte, blockSize)
-		copy(b, fmt.Sprintf("%020d", id))
+		pt := fmt.Sprintf("%020d", id)
+		pt += strings.Repeat("x", ptLen-len(pt))
+		b := make([]byte, 12, blockSize)
+		binary.BigEndian.PutUint32(b[8:12], uint32(len(pt)))
+		b = append(b, pt...)
 		if err := q.Append(b); err != nil {
 			appendErr.CompareAndSwap(nil, err.Error())
 			return
@@ -431,69 +458,78 @@ func hhCatchup(seed uint64, ms int) string {
 		accepted.Store(id, struct{}{})
 		atomic.AddInt64(&nAcc, 1)
 	}
-	deadline := time.Now().Add(time.Duration(ms) * time.Millisecond)
-	go func() {
-		defer atomic.StoreInt32(&appendersDone, 1)
-		for time.Now().Before(deadline) {
-			start := make(chan struct{})
-			var wg sync.WaitGroup
-			for a := 0; a < appenders; a++ {
-				wg.Add(1)
-				go func() {
-					defer wg.Done()
-					<-start
-					appendOne()
-				}()
-			}
-			burst.Store(start)
-			atomic.StoreInt32(&armed, 1)
-			appendOne()
-			wg.Wait()
-			waitUntil := time.Now().Add(5 * time.Second)
-			for !q.Empty() && time.Now().Before(waitUntil) {
-				time.Sleep(20 * time.Microsecond)
-			}
-			if atomic.LoadInt64(&nDeliv) != atomic.LoadInt64(&nAcc) {
+	stop := make(chan struct{})
+	var wg sync.WaitGroup
+	wg.Add(1)
+	go func() { // the sender
+		defer wg.Done()
+		for {
+			select {
+			case <-stop:
 				return
+			default:
+			}
+			if _, err := proc.SendWrite(); err != nil {
+				time.Sleep(10 * time.Microsecond)
 			}
 		}
 	}()
-	delivered := map[uint64]int{}
-	hard := time.Now().Add(time.Duration(ms)*time.Millisecond + 30*time.Second)
-	for time.Now().Before(hard) {
-		b, err := q.Current()
-		if err != nil {
-			if atomic.LoadInt32(&appendersDone) == 1 && q.Empty() {
-				break
-			}
-			q.Advance() // what the processor does on EOF: move on from an exhausted head segment
-			time.Sleep(10 * time.Microsecond)
-			continue
+	deadline := time.Now().Add(time.Duration(ms) * time.Millisecond)
+	for time.Now().Before(deadline) {
+		start := make(chan struct{})
+		var bw sync.WaitGroup
+		for a := 0; a < appenders; a++ {
+			bw.Add(1)
+			go func() {
+				defer bw.Done()
+				<-start
+				appendOne()
+			}()
 		}
-		var id uint64
-		fmt.Sscanf(string(b[:20]), "%d", &id)
-		delivered[id]++
-		atomic.AddInt64(&nDeliv, 1)
-		if atomic.CompareAndSwapInt32(&armed, 1, 0) {
-			close(burst.Load().(chan struct{}))
+		burst.Store(start)
+		atomic.StoreInt32(&armed, 1)
+		appendOne()
+		bw.Wait()
+		settle := time.Now().Add(5 * time.Second)
+		for !q.Empty() && time.Now().Before(settle) {
+			time.Sleep(20 * time.Microsecond)
 		}
-		q.Advance()
+		rec.mu.Lock()
+		n := int64(len(rec.delivered))
+		rec.mu.Unlock()
+		if n != atomic.LoadInt64(&nAcc) {
+			break // the queue says it is empty and blocks are missing (or it never drains)
+		}
+	}
+	close(stop)
+	done := make(chan struct{})
+	go func() { wg.Wait(); close(done) }()
+	select {
+	case <-done:
+	case <-time.After(60 * time.Second):
+		return "DEADLOCK: hinted-handoff sender did not stop"
+	}
+	for k := 0; k < 3; {
+		if _, err := proc.SendWrite(); err != nil {
+			k++
+		} else {
+			k = 0
+		}
 	}
 	if e := appendErr.Load(); e != nil {
 		return "err:append:" + strings.ReplaceAll(e.(string), " ", "_")
 	}
-	lost, dup := 0, 0
+	rec.mu.Lock()
+	defer rec.mu.Unlock()
+	lost := 0
 	accepted.Range(func(k, _ interface{}) bool {
-		switch n := delivered[k.(uint64)]; {
-		case n == 0:
+		if rec.delivered[k.(uint64)] == 0 {
 			lost++
-		case n > 1:
-			dup++
 		}
 		return true
 	})
-	if lost > 0 || dup > 0 {
-		return fmt.Sprintf("HH %d_blocks_accepted,_%d_never_handed_to_the_reader,_%d_handed_out_twice", atomic.LoadInt64(&nAcc), lost, dup)
+	if lost > 0 {
+		return fmt.Sprintf("HH %d_blocks_accepted,_%d_never_delivered", atomic.LoadInt64(&nAcc), lost)
 	}
 	return "ok"
 }
@@ -780,7 +816,7 @@ func (Prop) Generate(r *fw.Rand, tier string) []fw.Case {
 }
 
 func (Prop) Describe(cfg *fw.Config) {
-	cfg.Rule = "stress scenarios on real components: (shard) 4 writers with their own series, a snapshotter, a compactor of all files, a writer+deleter of another measurement and 2 readers on one shard for 0.4 s (quick) / 1.5 s (thorough), inmem and tsi1: every read must hold all points acknowledged before it began, and at rest and after a reopen all acknowledged points; (field) 800 (quick) / 3000 (thorough) rounds of 4 goroutines writing one new field with four different types: exactly one is accepted and exactly its value is readable; (hh) 4 appenders and a drainer on a hinted-handoff queue with 4 KB segments: every acknowledged block is drained once, in per-appender order; (hhsend) 4 appenders against the real sender (NodeProcessor.SendWrite in a loop) with a recording shard writer: every acknowledged block is delivered, in per-appender order, none skipped; (ooo) one writer sending a series in descending time order against four readers: every read holds every point acknowledged before it began, once; (newfields) rounds of eight goroutines writing different new fields of one measurement at once: every acknowledged write is readable, also after a restart; (hh, odd seeds) pausing appenders on 700-byte segments; (hhcatchup) a reader that has caught up meets a burst of eight appends when it exhausts the head segment (three-block segments): every accepted block is handed out once; a watchdog reports workers that do not stop; thorough tier: the harness is built with the Go race detector (a report ends the run); non-trivial = every scenario; distinct = distinct op list"
+	cfg.Rule = "stress scenarios on real components: (shard) 4 writers with their own series, a snapshotter, a compactor of all files, a writer+deleter of another measurement and 2 readers on one shard for 0.4 s (quick) / 1.5 s (thorough), inmem and tsi1: every read must hold all points acknowledged before it began, and at rest and after a reopen all acknowledged points; (field) 800 (quick) / 3000 (thorough) rounds of 4 goroutines writing one new field with four different types: exactly one is accepted and exactly its value is readable; (hh) 4 appenders and a drainer on a hinted-handoff queue with 4 KB segments: every acknowledged block is drained once, in per-appender order; (hhsend) 4 appenders against the real sender (NodeProcessor.SendWrite in a loop) with a recording shard writer: every acknowledged block is delivered, in per-appender order, none skipped; (ooo) one writer sending a series in descending time order against four readers: every read holds every point acknowledged before it began, once; (newfields) rounds of eight goroutines writing different new fields of one measurement at once: every acknowledged write is readable, also after a restart; (hh, odd seeds) pausing appenders on 700-byte segments; (hhcatchup) the real sender, caught up with the appenders, meets a burst of eight appends when it exhausts the head segment (three-block segments): every accepted block is handed out once; a watchdog reports workers that do not stop; thorough tier: the harness is built with the Go race detector (a report ends the run); non-trivial = every scenario; distinct = distinct op list"
 }
 
 func (Prop) Trivial(c fw.Case, out []string) bool { return false }
